@@ -836,6 +836,10 @@ type c20Tier struct {
 	tinyDepth, tinyDepthSQL                 int
 	zombieDepth, zombieDepthSQL             int
 	zombieLooseDepthSQL                     int // non-strict pruning on sqlite (differs from strict by one branch)
+	// zombie x corruption family (semantic/zombie-*): always on bbolt with and without
+	// strict pruning; zombieSemSQL adds sqlite, zombieSemThenCA the follow-up announcement
+	zombieSemSQL, zombieSemThenCA bool
+	zombieNodesDepth              int // order/zombie-nodes/kv
 	// channel-kind family: the single-step cross product always runs (both stores);
 	kindRestart             bool // each announcement, a restart, the announcement again
 	kindDepth, kindDepthSQL int  // order/chan-kind spaces
@@ -865,6 +869,7 @@ func c20Tiers(thorough bool) c20Tier {
 			byteStride:       1, semSQL: true, bytesSQL: true, deadline: 26 * time.Minute,
 			restartDepth: 7, restartDepthSQL: 6, restarts: 2, tinyDepth: 6, tinyDepthSQL: 5,
 			zombieDepth: 6, zombieDepthSQL: 5, zombieLooseDepthSQL: 5,
+			zombieSemSQL: true, zombieSemThenCA: true, zombieNodesDepth: 6,
 			kindRestart: true, kindDepth: 5, kindDepthSQL: 4,
 		}
 	} else {
@@ -874,9 +879,10 @@ func c20Tiers(thorough bool) c20Tier {
 				"CA&CU0a&NA1", "CU0b&CA", "CU0a&CU0b"),
 			samePeerAlphabet: c20AlphabetCore,
 			byteBases:        []string{"CA", "CU0b", "NA1b"},
-			byteStride:       1, semSQL: true, deadline: 150 * time.Second,
+			byteStride:       1, semSQL: true, deadline: 180 * time.Second,
 			restartDepth: 5, restartDepthSQL: 4, restarts: 1, tinyDepth: 4, tinyDepthSQL: 0,
-			zombieDepth: 4, zombieDepthSQL: 3,
+			zombieDepth: 4, zombieDepthSQL: 3, zombieLooseDepthSQL: 3,
+			zombieSemSQL: true, zombieNodesDepth: 4,
 			kindDepth: 3,
 		}
 	}
@@ -892,6 +898,7 @@ func c20Tiers(thorough bool) c20Tier {
 	geti("VERIF_C20_DEPTH_RESTART", &tr.restartDepth)
 	geti("VERIF_C20_DEPTH_ZOMBIE", &tr.zombieDepth)
 	geti("VERIF_C20_DEPTH_KIND", &tr.kindDepth)
+	geti("VERIF_C20_DEPTH_ZOMBIE_NODES", &tr.zombieNodesDepth)
 	return tr
 }
 
@@ -937,6 +944,16 @@ func c20LifecycleSpaces(tier c20Tier) []c20SpaceDef {
 	add("order/zombie/kv", c20Cfg{Backend: "kv"}, zombieAlphabet, tier.zombieDepth, 1)
 	add("order/zombie-strict/sql", c20Cfg{Backend: "sql", Strict: true}, zombieAlphabet, tier.zombieDepthSQL, 1)
 	add("order/zombie/sql", c20Cfg{Backend: "sql"}, zombieAlphabet, tier.zombieLooseDepthSQL, 1)
+	// the nodes in the zombie life cycle: node announcements of both nodes before and
+	// after the prune tick (a node left without a channel leaves the graph and its
+	// announcement is refused until a channel is known again), a second channel of
+	// the same two nodes (they survive the prune tick), the resurrecting update and
+	// the announcement again, a restart.
+	zombieNodesAlphabet := []string{
+		"oCU0.-16d", "oCU1.-15d12h", "prune", "NA1", "NA2", "NA1b", "xCA.scid=tiny-amount",
+		"CU0b", "CA", "restart",
+	}
+	add("order/zombie-nodes/kv", c20Cfg{Backend: "kv"}, zombieNodesAlphabet, tier.zombieNodesDepth, 1)
 	// channel kinds: announcements of both kinds for the taproot and the legacy
 	// output (the right kind, the other kind, a single-key output), the same channel
 	// announced again with the other taproot bit, updates of both channels, a restart.
@@ -966,7 +983,18 @@ var c20Contexts = map[string][]string{
 	"full":    {"CA", "CU0a", "CU1a", "NA1", "NA2"},
 	// node_1's policy older than node_2's, then a restart
 	"restarted": {"CA", "CU0a", "CU1b", "NA1", "NA2", "restart"},
+	// the channel is a zombie (both policies beyond the two-week horizon, one prune
+	// tick; the two node announcements went with it): node_1's policy the older one /
+	// node_2's the older one / node_1's never received. Without strict pruning the
+	// zombie entry carries both node keys, with it only the key of the node whose
+	// policy was older or missing.
+	"zombie-1older":   {"CA", "NA1", "NA2", "oCU0.-16d", "oCU1.-15d12h", "prune"},
+	"zombie-2older":   {"CA", "NA1", "NA2", "oCU0.-15d", "oCU1.-15d12h", "prune"},
+	"zombie-1missing": {"CA", "NA1", "NA2", "oCU1.-15d12h", "prune"},
 }
+
+// c20ZombieContexts: the zombie contexts of the zombie x corruption family.
+var c20ZombieContexts = []string{"zombie-1older", "zombie-2older", "zombie-1missing"}
 
 func c20Workers() int {
 	n := runtime.NumCPU()
@@ -1241,6 +1269,57 @@ func c20Worker(t *testing.T) {
 			}
 		}
 	}
+	// ---- zombie x corruption: every semantic corruption of an update (both
+	// directions; signer, direction bit, timestamps, fields, scid, chain, extra data)
+	// delivered to a channel that sits in the zombie index, for every way the entry
+	// can have been made (both keys / node_1's key / node_2's key stored: pruning mode
+	// x which policy was older or missing), on both stores; announcement and
+	// node-announcement corruptions once per pruning mode. Crossing rule: every
+	// (store, pruning mode, zombie context) cell gets the whole update family
+	// (quick: every (store, distinct stored-key outcome) cell: loose/both keys,
+	// strict/node_1 older, strict/node_2 older, strict/node_1's policy missing).
+	nZombieSem := 0
+	{
+		zBackends := []string{"kv"}
+		if tier.zombieSemSQL {
+			zBackends = append(zBackends, "sql")
+		}
+		for _, be := range zBackends {
+			for _, strict := range []bool{false, true} {
+				mode := "loose"
+				if strict {
+					mode = "strict"
+				}
+				for ci, cn := range c20ZombieContexts {
+					if !strict && ci > 0 && !tier.zombieSemThenCA {
+						// quick: without strict pruning every context stores the same
+						// entry (both keys); one context stands for the cell
+						continue
+					}
+					fams := [][]string{c20Cat.SemCU}
+					if ci == 0 && be == "kv" {
+						fams = append(fams, c20Cat.SemCA, c20Cat.SemNA)
+					}
+					for _, fam := range fams {
+						for _, id := range fam {
+							space := "semantic/" + cn + "," + mode + "/" + be
+							semCases = append(semCases, c20Case{Space: space, Cfg: c20Cfg{Backend: be, Strict: strict},
+								Ops: append(append([]string{}, c20Contexts[cn]...), id)})
+							nZombieSem++
+							if tier.zombieSemThenCA && c20Kind(c20Cat.get(id).Decoded) == "cu" {
+								// ... and the honest announcement after it: ignored while the
+								// entry stands, accepted (with the held update) once it is gone
+								semCases = append(semCases, c20Case{Space: space + "+CA", Cfg: c20Cfg{Backend: be, Strict: strict},
+									Ops: append(append([]string{}, c20Contexts[cn]...), id, "CA")})
+								nZombieSem++
+							}
+						}
+					}
+				}
+			}
+		}
+	}
+	cov["zombie_corruption_cases"] = nZombieSem
 	// ---- channel kinds: feature vector x funding-output form ------------------
 	// (part of the corruption enumeration, which runs first: a deadline never cuts it)
 	nKind := 0
